@@ -29,7 +29,7 @@ TECHNIQUE = ("complete enumeration of 1- and 2-operator expression cells over op
 RULE = (
     "case = a design of up to 8 expression trees (operators + - * truncdiv // % rem & | ^ ~ == != < <= > >= << >> @ "
     "x[i] x[h:l] x[run-time idx] .signed .unsigned .bitvector resize abs neg and/or/not chained comparison "
-    "if-expression select_with any/all bool(), operands Bit bool BitVector Unsigned Signed Integer enum, array "
+    "if-expression select_with any/all bool() and local conversions Signal[T](x) / Temporary[T](x) / std.Value[T](x), operands Bit bool BitVector Unsigned Signed Integer enum, array "
     "elements, Python int literals in either position) over shared input ports; every valuation of the ports is "
     "simulated when they have <= 12 bits (enumerated cells) / <= 10 bits (random trees), else corner values and "
     "Hypothesis-drawn values; non-trivial = at least one expression with >= 1 operator and >= 1 run-time operand "
@@ -73,7 +73,7 @@ _ENUM_PLAN = {
     "op2all": (lambda tier: G.cells_2op([1, 2], "all")),
 }
 _NSHARDS = {"quick": {"op1": 4, "special": 4, "op2": 32}, "thorough": {"op1": 8, "special": 6, "op2": 160, "op2all": 160}}
-_HYP = {"quick": (12, 36, 4, 24), "thorough": (96, 170, 24, 100)}  # narrow shards, examples each, wide shards, examples
+_HYP = {"quick": (12, 32, 4, 24), "thorough": (96, 170, 24, 100)}  # narrow shards, examples each, wide shards, examples
 
 
 def plan(tier):
